@@ -605,6 +605,23 @@ func (g gen) serveOne(rq request, class string) {
 	nt := len(rq.sc.msgs) > 0 || !rq.sc.result.isNil || rq.sc.recv
 	o.Case(rq.line(), ans, nt)
 	checkOutcome(o, rq, out)
+	// the same bytes with the length not declared / arriving a byte at a time: a handler that reads the
+	// request must see the same exchange (no receive path may depend on Content-Length or on how the
+	// body splits into reads, and none may panic)
+	if rq.sc.recv {
+		for _, mode := range []int{bodyUndeclared, bodyTrickle} {
+			alt := serveAs(rq, mode)
+			if a := alt.answer(); a != ans {
+				name, d := "body-presentation-independent", a
+				if alt.panicked {
+					name, d = "panic:body-presentation", "panic: "+alt.panicMsg
+				}
+				o.Oracle(name, fmt.Sprintf("%s mode=%d", rq.line(), mode), "declared: "+ans+" | now: "+d)
+			} else {
+				o.OracleOK("body-presentation-independent")
+			}
+		}
+	}
 	kind := "twirp"
 	if docSelect(rq.ct).grpc {
 		kind = "grpcweb"
